@@ -194,6 +194,10 @@ pub fn scenarios(seed: u64) -> Vec<Scenario> {
         ("same-block-query", vec![(g, vec![(Input, AddToAmm, 20, true)]), (g, vec![(Input, AddToAmm, 30, true)])], vec![1, g, 2 * g, 900], 0),
         ("long-gaps", vec![(1000, vec![(Input, RemoveFromAmm, 50, true)]), (5000, vec![(Output, RemoveFromAmm, 2, true)]), (1, vec![(Input, AddToAmm, 5, true)])], vec![1, 2, 900, 5001, 6000, 6001, 7000], 1),
         ("unchanged", vec![(g, vec![]), (2 * g, vec![])], vec![1, g, 900, 10_000], 10),
+        // history longer than a week; windows around one week, between the week and the history
+        // length, and longer than the history
+        ("week-long", vec![(100, vec![(Input, AddToAmm, 20, true)]), (8 * 86_400, vec![(Input, AddToAmm, 30, true)])], vec![86_400, 604_799, 604_800, 604_801, 8 * 86_400 + 43_200, 9 * 86_400 + 99, 9 * 86_400 + 100, 9 * 86_400 + 101, 10 * 86_400, 30 * 86_400], 86_400),
+        ("month-long", vec![(3_600, vec![(Input, RemoveFromAmm, 15, true)]), (20 * 86_400, vec![(Output, AddToAmm, 2, true)]), (6 * 86_400, vec![(Input, AddToAmm, 40, true)])], vec![900, 604_800, 6 * 86_400 + 3_600, 7 * 86_400 + 3_600, 20 * 86_400, 26 * 86_400 + 3_601, 27 * 86_400, 365 * 86_400], 3_600),
         ("six-blocks", vec![(g, vec![(Input, AddToAmm, 5, true)]), (g, vec![(Input, AddToAmm, 6, false)]), (g, vec![(Input, RemoveFromAmm, 20, true)]), (g, vec![(Output, AddToAmm, 1, false)]), (g, vec![(Input, AddToAmm, 9, true)]), (g, vec![(Input, RemoveFromAmm, 2, false)])], vec![g / 2, g, 2 * g + 1, 5 * g, 6 * g, 900, 7 * g], g / 2),
     ];
     for (name, blocks, ivs, tail) in scheds {
@@ -212,6 +216,7 @@ pub fn scenarios(seed: u64) -> Vec<Scenario> {
         ("same-timestamp", vec![g, 0, g], vec![1, g, 2 * g, 900], 3),
         ("four", vec![10, 100, 1000, 15], vec![5, 15, 16, 1015, 1115, 1125, 1126, 5000], 1),
         ("now", vec![g, g], vec![1, g, 2 * g, 900], 0),
+        ("week-long", vec![100, 8 * 86_400, 3_600], vec![3_600, 86_400, 604_799, 604_800, 604_801, 8 * 86_400 + 43_200, 9 * 86_400, 10 * 86_400, 30 * 86_400], 86_400),
     ];
     for (name, offs, ivs, tail) in feeds {
         v.push(sc("C18", Tier::Quick, &format!("c18.feed.{}", name), df, 400, 120, feed_twap(offs, ivs, tail)));
